@@ -32,6 +32,7 @@ def handle (op : String) (args : Json) : Except String Json :=
   | "c15.crash" => LK.Driver.Misc.c15Crash args
   | "c10.funksvd" => LK.Driver.Funk.trainOp args
   | "c03.recommend" => LK.Driver.C03.recommendOp args
+  | "c15.arrow_rt" => LK.Driver.C16.arrowRtOp args
   | "c15.getstate" => LK.Driver.C16.getstateOp args
   | "c16.run" => LK.Driver.C16.run args
   | "c11.chunk" => LK.Driver.Num.c11Chunk args
